@@ -149,8 +149,8 @@ def lemma_as_axiom(reg, name):
     return z3.ForAll(vs, z3.Implies(z3.And(*hyps + [z3.BoolVal(True)]), body))
 
 
-def gen_function_vcs(reg, c, small_scope=None):
-    fndef, imports, sha, line = extract.load(REPO, c.path, c.qualname)
+def gen_function_vcs(reg, c, small_scope=None, root=None):
+    fndef, imports, sha, line = extract.load(root or REPO, c.path, c.qualname)
     sx._fresh.reset()
     eng = sx.Engine(c.key, fndef, imports, c, reg, reg.specs, small_scope=small_scope)
     vcs = eng.run_function()
@@ -411,6 +411,14 @@ def run_property(prop, tier, seed):
                 "%d obligations, none proved" % njobs if not bad else "PROVED: %s" % bad
             if bad:
                 out["crashes"].append("soundness canary proved (%s): the VC engine is unsound, no verdict" % bad)
+        if contracts:
+            from pyvc import canary
+            probs, njobs = canary.functions_wrongly_proved()
+            out["guards"]["soundness canaries (false clauses on tiny functions that must stay open)"] = \
+                "%d obligations, all open" % njobs if not probs else "PROBLEM: %s" % probs
+            if probs:
+                out["crashes"].append("function-level soundness canary failed (%s): the VC engine is unsound or changed, "
+                                      "no verdict" % probs)
         for c in contracts:
             short = c.key.split("::")[-1]
             frag = getattr(c, "fragment", None)
